@@ -264,8 +264,8 @@ def disk_tree(rng, max_entries=30, max_depth=5, types=("dir", "file", "symlink",
                 src = rng.choice(linkable)
                 e["ln"] = src["p"]
             elif t in ("chr", "blk"):
-                e["maj"] = rng.choice([1, 8, 250])
-                e["min"] = rng.choice([0, 3, 5, 255])
+                e["maj"] = rng.choice([1, 8, 250, 259, 4095])
+                e["min"] = rng.choice([0, 3, 5, 255, 256, 70000, 1048575])
             if t not in ("hardlink", "dir") and (t != "symlink" or rng.random() < 0.3):
                 linkable.append(e)
         if xattrs and e["t"] != "hardlink" and rng.random() < 0.2:
